@@ -545,6 +545,7 @@ package raft
 //@        && l.unstable.entries == old(l.unstable.entries) && l.unstable.offset == old(l.unstable.offset) && l.unstable.offsetInProgress == old(l.unstable.offsetInProgress)
 //@   ensures #accept [C03] old(matchesAt(l, a.prev.index, a.prev.term)) ==> ok && lastnewi == a.prev.index + len(a.entries)
 //@   ensures #commit-clamp [C06 C07] ok ==> l.committed == max(old(l.committed), min(committed, lastnewi))
+//@   ensures #lastnew-in-log [C06] ok ==> lastnewi <= log_last(l)
 //@   ensures #commit-monotone [C07 C06] l.committed >= old(l.committed) && l.committed <= log_last(l)
 //@   ensures #matches-leader [C03] ok ==> (forall p int, i int :: a.entries.off <= p && p < a.entries.off + len(a.entries) && i == a.prev.index + 1 + (p - a.entries.off)
 //@        ==> log_has(l, i) && log_term(l, i) == old(eterm(elem(a.entries, p))))
@@ -1084,3 +1085,57 @@ package raft
 //@   loop 2 invariant #state 0 <= iter && iter <= len(ids) && wf_raft(r) && typestate(r) && r.Term == (t == campaignPreElection ? old(r.Term) : old(r.Term) + 1) && r.Vote == (t == campaignPreElection ? old(r.Vote) : r.id)
 //@        && r.state == (t == campaignPreElection ? StatePreCandidate : StateCandidate) && len(r.trk.Votes) == 0 && r.id == old(r.id) && r.raftLog == old(r.raftLog)
 //@        && r.raftLog.committed == old(r.raftLog.committed) && r.trk.Progress == old(r.trk.Progress) && log_last(r.raftLog) == old(log_last(r.raftLog)) && term >= 1
+
+//@ -- ------------------------------------------------------------------------------------------
+//@ -- raft.go: follower-side handlers. Every reply that reports a log position is a response type and is therefore
+//@ -- routed to msgsAfterAppend (C05: durable before visible); the position reported is exactly what the local log holds (C06/C03).
+
+//@ spec lastDeferred(r *raft) *pb.Message := r.msgsAfterAppend[len(r.msgsAfterAppend) - 1]
+//@ pred one_deferred_reply(r *raft, to uint64, t pb.MessageType) := len(r.msgsAfterAppend) == old(len(r.msgsAfterAppend)) + 1 && r.msgs == old(r.msgs)
+//@     && lastDeferred(r).GetType() == t && lastDeferred(r).GetTo() == to && lastDeferred(r).GetTerm() == r.Term && lastDeferred(r).GetFrom() == r.id
+
+//@ func raft.raft.handleHeartbeat [C06 C05 C07 C14]
+//@   requires wf_raft(r) && m != nil
+//@   requires #not-self [C14] m.GetFrom() != r.id
+//@   -- E-msg-wf: a leader never advertises a commit index above what it knows the follower holds (sendHeartbeat#post:commit-clamp)
+//@   requires #commit-in-log [C14 C06] m.GetCommit() <= log_last(r.raftLog)
+//@   ensures #commit-max [C06 C07] r.raftLog.committed == max(old(r.raftLog.committed), old(m.GetCommit()))
+//@   ensures #reply [C05] len(r.msgs) == old(len(r.msgs)) + 1 && r.msgsAfterAppend == old(r.msgsAfterAppend)
+//@        && r.msgs[old(len(r.msgs))].GetType() == pb.MsgHeartbeatResp && r.msgs[old(len(r.msgs))].GetTo() == old(m.GetFrom())
+//@   ensures #rest raft_kept_but_msgs(r) && log_last(r.raftLog) == old(log_last(r.raftLog))
+//@   ensures #wf wf_raft(r) && hs_monotone(r)
+
+//@ spec msgSlice(m *pb.Message) logSlice := logSliceFromMsgApp(m)
+
+//@ func raft.logSliceFromMsgApp
+//@   inline
+
+//@ func raft.raft.handleAppendEntries [C03 C05 C06 C07 C01 C14]
+//@   requires wf_raft(r) && m != nil
+//@   requires #not-self [C14] m.GetFrom() != r.id
+//@   -- E-msg-wf: the entries of a MsgApp are contiguous from Index+1 with non-decreasing terms (maybeSendAppend#post)
+//@   requires #valid [C14 C03] entriesFrom(m.Entries, m.GetIndex() + 1) && termsMonotone(m.Entries)
+//@        && (len(m.Entries) > 0 ==> m.GetLogTerm() <= eterm(m.Entries[0])) && m.GetIndex() + len(m.Entries) < 4611686018427387904
+//@   -- E-leader-complete (DESIGN §3.4): an append accepted at the current term never conflicts with the committed prefix
+//@   requires #no-committed-conflict [C14] matchesAt(r.raftLog, m.GetIndex(), m.GetLogTerm()) ==> (forall p int :: m.Entries.off <= p && p < m.Entries.off + len(m.Entries)
+//@        && eindex(elem(m.Entries, p)) <= r.raftLog.committed ==> matchesAt(r.raftLog, eindex(elem(m.Entries, p)), eterm(elem(m.Entries, p))))
+//@   reveal wf_raftLog
+//@   ensures #one-deferred-reply [C05] one_deferred_reply(r, old(m.GetFrom()), pb.MsgAppResp)
+//@   ensures #stale-below-commit [C06 C03] old(m.GetIndex() < r.raftLog.committed) ==> !lastDeferred(r).GetReject() && lastDeferred(r).GetIndex() == r.raftLog.committed
+//@        && r.raftLog.committed == old(r.raftLog.committed) && log_last(r.raftLog) == old(log_last(r.raftLog))
+//@        && r.raftLog.unstable.entries == old(r.raftLog.unstable.entries) && r.raftLog.unstable.offset == old(r.raftLog.unstable.offset)
+//@   ensures #accept-ack [C03 C06] old(m.GetIndex() >= r.raftLog.committed && matchesAt(r.raftLog, m.GetIndex(), m.GetLogTerm())) ==> !lastDeferred(r).GetReject()
+//@        && lastDeferred(r).GetIndex() == old(m.GetIndex() + len(m.Entries))
+//@   ensures #accept-commit [C06 C07] old(m.GetIndex() >= r.raftLog.committed && matchesAt(r.raftLog, m.GetIndex(), m.GetLogTerm())) ==>
+//@        r.raftLog.committed == max(old(r.raftLog.committed), min(old(m.GetCommit()), old(m.GetIndex() + len(m.Entries))))
+//@   ensures #accept-entries [C03] old(m.GetIndex() >= r.raftLog.committed && matchesAt(r.raftLog, m.GetIndex(), m.GetLogTerm())) ==>
+//@        (forall p int, i int :: m.Entries.off <= p && p < m.Entries.off + len(m.Entries) && i == old(m.GetIndex()) + 1 + (p - m.Entries.off)
+//@            ==> log_has(r.raftLog, i) && log_term(r.raftLog, i) == old(eterm(elem(m.Entries, p))))
+//@   ensures #reject [C03] old(m.GetIndex() >= r.raftLog.committed && !matchesAt(r.raftLog, m.GetIndex(), m.GetLogTerm())) ==> lastDeferred(r).GetReject()
+//@        && lastDeferred(r).GetIndex() == old(m.GetIndex()) && lastDeferred(r).GetRejectHint() <= old(m.GetIndex())
+//@        && r.raftLog.committed == old(r.raftLog.committed) && log_last(r.raftLog) == old(log_last(r.raftLog))
+//@        && r.raftLog.unstable.entries == old(r.raftLog.unstable.entries) && r.raftLog.unstable.offset == old(r.raftLog.unstable.offset)
+//@   ensures #ack-within-log [C06 C05] !lastDeferred(r).GetReject() ==> lastDeferred(r).GetIndex() <= log_last(r.raftLog)
+//@   ensures #committed-prefix-stable [C01 C03] forall i int :: i <= old(r.raftLog.committed) && old(log_has(r.raftLog, i)) ==> log_has(r.raftLog, i) && log_term(r.raftLog, i) == old(log_term(r.raftLog, i))
+//@   ensures #rest raft_kept_but_msgs(r) && r.raftLog.applied == old(r.raftLog.applied) && r.raftLog.applying == old(r.raftLog.applying)
+//@   ensures #wf wf_raft(r) && hs_monotone(r)
